@@ -19,7 +19,7 @@ inductive MKind where
   deriving DecidableEq, Repr, Inhabited
 
 inductive AKind where
-  | b | bl | bcond | cbz | tbz | adr | adrp | ldr
+  | b | bl | bcond | cbz | tbz | adr | adrp | ldr | bc
   deriving DecidableEq, Repr, Inhabited
 
 /-- menu: jmp L / jz L / call L / jecxz ecx, L / loop L -/
@@ -63,9 +63,10 @@ def MKind.ashape (arch : Arch) : MKind → AShape
 def AKind.opcode : AKind → BitVec 32
   | .b => 0x14000000#32 | .bl => 0x94000000#32 | .bcond => 0x54000000#32 | .cbz => 0xB4000001#32
   | .tbz => 0x36180002#32 | .adr => 0x10000003#32 | .adrp => 0x90000004#32 | .ldr => 0x58000005#32
+  | .bc => 0x54000010#32      -- bc.eq (BC.cond, FEAT_HBC): its own opcode bit 4 (/repo 9b3303f)
 
 def AKind.kind : AKind → A64Kind
-  | .b | .bl => .imm26 | .bcond | .cbz | .ldr => .imm19 | .tbz => .imm14 | .adr => .adr | .adrp => .adrp
+  | .b | .bl => .imm26 | .bcond | .cbz | .ldr | .bc => .imm19 | .tbz => .imm14 | .adr => .adr | .adrp => .adrp
 
 inductive Op where
   | newLabel
